@@ -179,6 +179,25 @@ def check_layout(c):
             Z, inf = _als(pts, y, Y0, N + 2, lamb, w, cb=sn)
             res.check(inf.get('stop') == 'cb' and inf.get('nswp') == s and len(sn.Y) == s and _rel(Z, snap.Y[s - 1]) <= 1e-12,
                       'cb', cfg, lambda: 'callback True at sweep %d: stop=%r nswp=%r' % (s, inf.get('stop'), inf.get('nswp')), tags)
+        # e-stop contract: the convergence value of sweep s is the relative change ||Y_s - Y_(s-1)|| / ||Y_(s-1)|| of the dense tensors
+        # (recomputed here from the callback states); thresholds 20 % above / below each sweep's value must stop exactly at the first
+        # sweep whose change is <= e, else by nswp
+        states = [Y0] + snap.Y
+        deltas = [_rel(states[s], states[s - 1]) for s in range(1, len(states))]
+        # (the library's value goes through ||A - B||^2 by inner products: its noise floor is about sqrt(u) ~ 1e-8 absolute, so only
+        # changes above 1e-4 are judged, to 1e-3 relative)
+        res.check(deltas[-1] < 1e-4 or abs(info.get('e', -9) - deltas[-1]) <= 1e-3 * deltas[-1], 'info.e', cfg,
+                  lambda: "info['e']=%r, relative change of the last sweep %r" % (info.get('e'), deltas[-1]), tags)
+        for e_thr in sorted({f * dl for dl in deltas for f in (1.2, 1 / 1.2) if dl > 1e-4}):
+            if any(abs(dl / e_thr - 1) < 0.1 for dl in deltas):
+                continue
+            res.ev()
+            want_s = next((s + 1 for s, dl in enumerate(deltas) if dl <= e_thr), None)
+            Z, inf = _als(pts, y, Y0, N, lamb, w, e=e_thr)
+            ws, wr = (want_s, 'e') if want_s is not None else (N, 'nswp')
+            res.check(inf.get('nswp') == ws and inf.get('stop') == wr and _rel(Z, states[ws]) <= 1e-12, 'e_stop', dict(cfg, e=e_thr),
+                      lambda: 'e=%.6g with sweep changes %s: stop=%r nswp=%r, expected %r at sweep %d' % (
+                          e_thr, ['%.4g' % x for x in deltas], inf.get('stop'), inf.get('nswp'), wr, ws), tags + ['e_stop'])
         # default e: documented stop, nswp consistent
         res.ev()
         sn = Snap()
